@@ -16,7 +16,7 @@ SPEC = dict(
           "containing each group, every group existing in some conformation must be reported, single-conformation and "
           "repeated-model identities are checked on the whole record and the .pka text. The remaining numeric fields of a record (buried "
           "fraction, atom counts) follow the same add-then-divide path: scalar_average_is_mean, with the Float model compared with the real "
-          "AVR values of protein-sized alternate-location inputs (non-zero buried fractions). On the program model the average conformation is modelled too (Program.averageOf: first come, find_group by residue label and type, mean over the conformations that contain the group) and compared with the real AVR conformation; averageL_is_mean proves the reported pKa and desolvation terms are the sum over the found records divided by their number.",
+          "AVR values of protein-sized alternate-location inputs (non-zero buried fractions). On the program model the average conformation is modelled too (Program.averageOf: first come, find_group by residue label and type, mean over the conformations that contain the group) and compared with the real AVR conformation; averageL_is_mean proves the reported pKa and desolvation terms are the sum over the found records divided by their number. copyLoopR_keys ties the program's top-up loop (on whole records) to the C08 model, so program_copy_no_merge (two copied atoms of one residue position carry one residue name, the one the conformation's own atoms give that position) and program_own_atoms_kept hold on Program.run.",
     note="A group 'exists in a conformation' is decided as the code does (same atom residue label and same group type). Determinants "
          "are compared per partner (the average merges determinants towards the same partner).",
     technique="Lean 4 proof (induction over the copy loop; linear algebra of sums over Q) + differential correspondence + independent-mean evaluation on real runs",
